@@ -92,6 +92,14 @@ def distribution(cases):
     return {'classes': d}
 
 
+class _Mark:
+    def __repr__(self):
+        return 'MARK'
+
+
+_MARK = _Mark()
+
+
 def outcome(f):
     try:
         return ('ok', f())
@@ -156,14 +164,14 @@ def oracle(impl, o):
 
             def f2(x):
                 calls.append(x)
-                return inner.unflatten([(len(calls), k) for k in range(n)])
+                return inner.unflatten([(_MARK, len(calls), k) for k in range(n)])
             gotm = outcome(lambda: optree.tree_transpose_map(f2, outer_t, inner_treespec=inner, **kw))
             if want[0] == 'ok':
                 if gotm[0] != 'ok':
                     fails.append({'key': 'transpose-map-raises', 'what': f'tree_transpose_map raised {gotm[1]}: {gotm[2]}'})
                 else:
                     s1 = optree.tree_structure(want[1], **kwt)
-                    s2 = optree.tree_structure(gotm[1], **{**kwt, 'is_leaf': lambda x: type(x) is tuple and len(x) == 2 and type(x[0]) is int})
+                    s2 = optree.tree_structure(gotm[1], **{**kwt, 'is_leaf': lambda x: type(x) is tuple and len(x) == 3 and x[0] is _MARK})
                     if not (s1 == s2) and not ns_conflict and parse(o['cfg'])[2] == parse(o['cfg_i'])[2]:
                         fails.append({'key': 'transpose-map-structure', 'what': 'tree_transpose_map differs in structure from transposing tree_map',
                                       'want': repr(s1)[:200], 'got': repr(s2)[:200]})
@@ -192,12 +200,13 @@ def oracle(impl, o):
             # the same with an is_leaf predicate under which the results contain opaque container leaves ("points")
             if want[0] == 'ok' and parse(o['cfg'])[2] == parse(o['cfg_i'])[2]:
                 def is_point(x):
-                    return type(x) is tuple and len(x) == 2 and type(x[0]) is int
+                    # opaque container leaves that cannot occur in the generated trees (integer leaves do)
+                    return type(x) is tuple and len(x) == 3 and x[0] is _MARK
                 kwl = {**kw, 'is_leaf': is_point}
                 kwtl = {**kwt, 'is_leaf': is_point}
 
                 def fpt(*xs):
-                    return inner.unflatten([(k, 7 * k) for k in range(n)])
+                    return inner.unflatten([(_MARK, k, 7 * k) for k in range(n)])
                 mapped_l = optree.tree_map(fpt, outer_t, **kwl)
                 want_l = outcome(lambda: optree.tree_transpose(outer, inner, mapped_l, is_leaf=is_point))
                 if want_l[0] == 'ok':
